@@ -98,7 +98,8 @@ func verdictClass(impl string) string {
 		if len(f) > 1 && f[1] == "api-valid" {
 			for _, t := range strings.Fields(info) {
 				if strings.HasPrefix(t, "pgv=") {
-					return "bad api-valid " + strings.TrimPrefix(t, "pgv=")
+					first, _, _ := strings.Cut(strings.TrimPrefix(t, "pgv="), ",")
+					return "bad api-valid " + first
 				}
 			}
 		}
